@@ -26,7 +26,7 @@ PROPERTY = 'C07'
 TECHNIQUE = 'symbolic execution of original, wrapped and immediately exported networks on z3-real inputs; three unsat equivalence queries per program/configuration + concrete mode / state_dict observations'
 FUNCTIONS_ENCODED = ['PIT.__init__', 'pit/graph.py convert(autoimport|import)/autoimport_node/fuse_pit_modules/remove_bn_inplace', 'fuse_consecutive_layers', 'PITConv1d/PITConv2d/PITLinear.__init__/forward (open masks)',
                      'PIT.export (immediate)', 'SuperNet.__init__/forward/export', 'supernet/graph.py convert(import)', 'MPS.__init__ (mode handling)']
-BOUNDS = {'quick': 'T2 (+no linear BN), D2, A1, L1, B1 (BatchNorm applied out of trace order), T1 bias-free, M2 (two-input forward), T2 with a strided first conv, T2/D2 with generic BatchNorm statistics (eps=1/8, var in {1/64,1/16,0.3}; outputs compared up to 1e-3 on the box |x|<=2) x fold_bn {off,on} x handed over in {eval, train} mode; SuperNet S(2..3, conv/seq/mix); MPS mode handling on D2/L1',
+BOUNDS = {'quick': 'T2 (+no linear BN), D2, A1, L1, B1 (BatchNorm applied out of trace order), T1 bias-free, M2 (two-input forward), T2 with a strided first conv, T2/D2 with generic BatchNorm statistics (eps=1/8, var in {1/64,1/16,0.3}; outputs compared up to 1e-3 on the box |x|<=2) x fold_bn {off,on} x handed over in {eval, train} mode; SuperNet S(2..3, conv/seq/mix); MPS mode handling on D2/L1; models handed over in mixed mode (training parent, frozen child): flags of every BatchNorm / Dropout of the user\'s model; program Z1 (Dropout shared between the user\'s model and the converted one); SuperNet with a conv+BatchNorm stem',
           'thorough': 'same + K1/K2/W1/F1/X1 programs, user-placed PIT layers with autoconvert off, SuperNet with 2 blocks / block used twice'}
 OUTSIDE = ['train-mode BatchNorm arithmetic (only the flags are observed in train mode)', 'float32 round-off of BN folding with non-dyadic statistics below 1e-3 absolute on |x|<=2', 'MPS folds BatchNorm into the user layers in place (exempted by the statement)']
 ASSUMPTIONS = ['dyadic BatchNorm statistics (var + eps a power of 4, eps = 0): folding is exact in float32 (exact equality demanded); bn_stats=generic programs: equality up to 1e-3', 'generic dyadic weights']
